@@ -83,6 +83,27 @@ def build(seed, cell, vig=False, wide=False, rear=False):
     o, meta = G.random_lens(rnd, aperture=ap, field_type=ft, finite_object=not inf, max_field=mf,
                             kinds=("standard", "standard", "even_asphere"), mirrors=(seed % 5 == 0), optic=reused)
     meta["optic_reused_after_reset"] = reused is not None
+    if seed % 7 == 3 and not meta["mirror"]:
+        # the stop is moved: a ready-made plane Surface carrying the stop flag is put into an air gap
+        # (the other public way of adding a surface); it is the stop from then on
+        from optiland.coordinate_system import CoordinateSystem
+        from optiland.geometries import Plane
+        from optiland.materials import IdealMaterial
+        from optiland.surfaces.standard_surface import Surface
+        sg = o.surface_group
+        pos = [float(z) for z in np.ravel(sg.positions)]
+        w0 = o.primary_wavelength
+        gaps = [k for k in range(2, sg.num_surfaces)
+                if float(np.ravel(sg.surfaces[k - 1].material_post.n(w0))[0]) == 1.0 and pos[k] - pos[k - 1] > 0.2
+                and math.isfinite(pos[k - 1])]
+        if gaps:
+            k = gaps[0]         # the first air gap: in front of the old stop whenever there is one there
+            air = IdealMaterial(n=1.0, k=0.0)
+            z = pos[k - 1] + rnd.uniform(0.3, 0.7) * (pos[k] - pos[k - 1])
+            o.add_surface(new_surface=Surface(Plane(CoordinateSystem(z=z)), air, air, is_stop=True), index=k)
+            meta["stop_moved_by_new_surface"] = True
+            meta["stop"] = k
+            meta["nsurf"] += 1
     if tel:
         o.obj_space_telecentric = True
     if seed % 4 == 1:
@@ -126,6 +147,12 @@ def record_lens(task):
         out["error"] = "build: %s: %s" % (type(ex).__name__, ex)
         return out
     out["meta"] = {k: meta[k] for k in ("nsurf", "stop", "max_field", "epd")}
+    nstop = sum(1 for sf in o.surface_group.surfaces if sf.is_stop)
+    if nstop != 1:
+        # the property speaks of *the* entrance pupil: a lens the public API left with no stop or
+        # with several has none
+        out["error"] = "stop: %d surfaces carry the stop flag after building through the public API" % nstop
+        return out
     try:
         ld = LR.lens_data(o)
     except Exception as ex:
@@ -372,7 +399,8 @@ def main(ctx):
         r = f.result()
         cname = LR.cell_name(dict(zip(("ap", "ft", "inf", "tel"), r["cell"])))
         if r["error"]:
-            ctx.report("raises", {"stage": r["error"].split(":")[0], "cell": cname}, "%s (seed %d)" % (r["error"], r["seed"]),
+            ctx.report("one_stop" if r["error"].startswith("stop:") else "raises",
+                       {"stage": r["error"].split(":")[0], "cell": cname}, "%s (seed %d)" % (r["error"], r["seed"]),
                        {"seed": r["seed"], "cell": r["cell"], "vig": r["vig"], "wide": r["wide"], "call": r.get("call")})
             continue
         if r["skip"]:
